@@ -144,6 +144,9 @@ func (e *Engine) verifyFunc(fn *ssa.Function, c *Contract) (fres *FuncResult) {
 	if c != nil {
 		x.structuralObligations(fn, c)
 	}
+	if c != nil && c.StructuralOnly == "" && c.Trusted != "" && len(c.Checks) == 0 && c.hasStructural() {
+		c.StructuralOnly = "trusted: " + c.Trusted
+	}
 	if c != nil && c.StructuralOnly != "" {
 		// the body is outside the engine's subset (reason given in the contract): only the structural obligations are decided
 		x.externs[fmt.Sprintf("body of %s not executed symbolically (%s): structural obligations only", fnKeyShort(fn), c.StructuralOnly)] = true
@@ -540,6 +543,19 @@ func (x *VC) structuralObligations(fn *ssa.Function, c *Contract) {
 			o.Note = "recover() stops a panic only when called directly by the deferred function"
 		}
 	}
+	for _, want := range c.CallsInEntry {
+		cond := "false"
+		if len(fn.Blocks) > 0 {
+			for _, ins := range fn.Blocks[0].Instrs {
+				if ci, ok := ins.(*ssa.Call); ok {
+					if callee := ci.Call.StaticCallee(); callee != nil && (callee.RelString(fn.Pkg.Pkg) == want || strings.HasSuffix(callee.String(), want)) {
+						cond = "true"
+					}
+				}
+			}
+		}
+		x.addObl("calls-in-entry", want, "", "true", cond)
+	}
 	if c.AlwaysSends {
 		// every return of the function is dominated by a channel send made by the function itself (an unconditional,
 		// blocking `ch <- v`; a send inside `select`, in a callee or in a goroutine does not count)
@@ -621,4 +637,8 @@ func (x *VC) structuralObligations(fn *ssa.Function, c *Contract) {
 		}
 		x.addObl("defers", d, "", "true", cond)
 	}
+}
+
+func (c *Contract) hasStructural() bool {
+	return c.Recovers || len(c.Defers) > 0 || len(c.ClosureFirst) > 0 || c.AlwaysSends || len(c.CallsInEntry) > 0
 }
